@@ -23,7 +23,8 @@ LEVEL_TEXT = ("Fault enumeration on the real code: every (function, invocation) 
               "a liveness property: only observed through the timeout (N/A for this family otherwise).")
 LEVEL_NOTE = ("Bounds: DAGs of 1..4 functions; map programs of 1..3 functions with <=8 calls. Trusted: tagging bodies, "
               "reference denotation for 'generation' and expected kwargs.")
-TECHNIQUE = "bounded fault enumeration of the failure-propagation contract (no deductive part)"
+TECHNIQUE = ("bounded fault enumeration of the failure-propagation contract; deductive part: Pipeline.error_snapshot "
+             "(the most recent snapshot among the functions) discharged by z3 over an uninterpreted total order of strings")
 EXPLANATION = LEVEL_TEXT
 RULE = ("case x failing invocation x exception type x execution mode; distinct = distinct tuples; non-trivial = the "
         "failing invocation is not the first call or the program has >=2 functions")
@@ -34,11 +35,15 @@ TIMEOUT_S = 60
 
 
 def registry():
-    return {}
+    from contracts import errors
+    return {**{c.short: c for c in errors.ALL}, **{c.name: c for c in errors.ALL}}
 
 
 def proof_items():
-    return []
+    from contracts import errors
+    from vf.driver import ProofItem
+    # which snapshot the pipeline exposes after several failures: the most recent one among its functions
+    return [ProofItem(errors.error_snapshot, gen=errors.gen)]
 
 
 def _same_exception(e, kind):
